@@ -40,4 +40,18 @@ def contentIdFirst (cid : List Nat) : Except Fault (Option Nat) :=
     let c ← goIndex cid 0
     pure (some c)
 
+/-- `strings.Split(s, ".")` for a one-byte separator: the pieces between the separators (at least one) -/
+def splitByte (sep : Nat) : List Nat → List (List Nat)
+  | [] => [[]]
+  | c :: cs =>
+    if c = sep then [] :: splitByte sep cs
+    else match splitByte sep cs with
+      | [] => [[c]]
+      | p :: ps => (c :: p) :: ps
+
+/-- `InitScrubbedMeta` / `InitMetaWithUrls`: `parts := strings.Split(filename, "."); ext := parts[len(parts)-1]` -/
+def extension (filename : List Nat) : Except Fault (List Nat) :=
+  let parts := splitByte 46 filename
+  goIndex parts ((parts.length : Int) - 1)
+
 end Emu.Gcs.GoOps
